@@ -403,9 +403,13 @@ func (r *runner) observe(n *core.Node, res *core.BlockResult) map[string]interfa
 	}
 	sv := []m{}
 	for _, s := range r.svcs {
-		sv = append(sv, m{"svc": full(n, s), "st": n.ServiceStatus(s)})
+		sv = append(sv, m{"svc": full(n, s), "st": n.ServiceStatus(s), "chainOf": strings.Split(s, ":")[0]})
 	}
-	out := m{"counters": ctr, "status": st, "groups": groups, "tmeta": tm, "mmeta": mmeta, "svc": sv}
+	ch := []m{}
+	for _, c := range r.plan.Chains {
+		ch = append(ch, m{"chain": c, "st": n.AppchainStatus(c)})
+	}
+	out := m{"counters": ctr, "status": st, "groups": groups, "tmeta": tm, "mmeta": mmeta, "svc": sv, "chains": ch}
 	if r.govMode {
 		props := []m{}
 		for _, pid := range r.pids {
@@ -687,6 +691,9 @@ func (r *runner) run(dir string) {
 					c = cn
 				}
 			}
+			if st.M == "RegisterService" && len(st.Args) >= 2 {
+				r.svcs = append(r.svcs, st.Args[0]+":"+st.Args[1])
+			}
 			tx := a.InvokeTx(from, lockstep.ContractsByName[c].Address(), st.M, args...)
 			d := map[string]interface{}{"k": "gov", "from": from.Addr.String(), "to": tx.GetTo().String(), "cls": "gov", "badsig": false, "m": st.M, "amtKind": "none", "amtNum": 0, "amt": "", "obj": st.Obj, "pid": ""}
 			r.emit(map[string]interface{}{"ev": "Submit", "h": int(a.Height() + 1), "n": 1})
@@ -851,6 +858,9 @@ func genPlan(rng *rand.Rand, name string, mode string) *Plan {
 			k := 1 + rng.Intn(3)
 			if rng.Intn(3) == 0 {
 				k = 1
+			}
+			if rng.Intn(8) == 0 {
+				k = 6 + rng.Intn(8) // more transactions than proof-verification groups
 			}
 			var txs []Tx
 			for j := 0; j < k; j++ {
@@ -1155,6 +1165,75 @@ func genGovElectorate(rng *rand.Rand, name string) *Plan {
 	return p
 }
 
+// lifecycle scenarios (C16): governance operations on services and appchains whose proposals are concluded in an
+// interleaved order (a registration approved after its chain was frozen, ...), with IBTP traffic in between
+func genLifecycle(rng *rand.Rand, name string) *Plan {
+	p := &Plan{Name: name, Seed: 1, Proof: "serial", Chains: []string{"chainA", "chainB"}, NSvc: 1, Black: map[string]string{}, Audit: rng.Intn(3) == 0}
+	admins := []string{"@admin0", "@admin1", "@admin2", "@admin3"}
+	var open []int
+	np := 0
+	nsvc := map[string]int{"chainA": 1, "chainB": 1}
+	next := map[string]uint64{}
+	traffic := func() {
+		var txs []Tx
+		for j := 0; j < 1+rng.Intn(3); j++ {
+			c1, c2 := []string{"chainA", "chainB"}[rng.Intn(2)], []string{"chainA", "chainB"}[rng.Intn(2)]
+			s := fmt.Sprintf("%s:svc%d", c1, 1+rng.Intn(nsvc[c1]))
+			d := fmt.Sprintf("%s:svc%d", c2, 1+rng.Intn(nsvc[c2]))
+			if s == d {
+				continue
+			}
+			pr := s + ">" + d
+			next[pr]++
+			txs = append(txs, Tx{K: "ibtp", Src: s, Dst: d, Idx: next[pr], Typ: "REQ", T: 0, From: []string{"u1", "u2"}[rng.Intn(2)]})
+		}
+		if len(txs) > 0 {
+			p.Steps = append(p.Steps, Step{Step: "block", Txs: txs})
+		}
+	}
+	for i := 0; i < 10+rng.Intn(14); i++ {
+		switch c := rng.Intn(10); {
+		case c < 3:
+			ch := []string{"chainA", "chainB"}[rng.Intn(2)]
+			switch rng.Intn(6) {
+			case 0:
+				nsvc[ch]++
+				p.Steps = append(p.Steps, Step{Step: "submit", M: "RegisterService", By: "admin-" + ch, Obj: ch,
+					Args: []string{ch, fmt.Sprintf("svc%d", nsvc[ch]), fmt.Sprintf("name-%s-%d-%d", ch, nsvc[ch], rng.Intn(999)), "CallContract", "intro", "u64:1", "", "details", "r"}})
+			case 1:
+				p.Steps = append(p.Steps, Step{Step: "submit", M: "FreezeAppchain", By: admins[rng.Intn(4)], Obj: ch, Args: []string{ch, "r"}})
+			case 2:
+				p.Steps = append(p.Steps, Step{Step: "submit", M: "ActivateAppchain", By: "admin-" + ch, Obj: ch, Args: []string{ch, "r"}})
+			case 3:
+				p.Steps = append(p.Steps, Step{Step: "submit", M: "FreezeService", By: admins[rng.Intn(4)], Obj: ch, Args: []string{fmt.Sprintf("%s:svc%d", ch, 1+rng.Intn(nsvc[ch])), "r"}})
+			case 4:
+				p.Steps = append(p.Steps, Step{Step: "submit", M: "ActivateService", By: "admin-" + ch, Obj: ch, Args: []string{fmt.Sprintf("%s:svc%d", ch, 1+rng.Intn(nsvc[ch])), "r"}})
+			default:
+				p.Steps = append(p.Steps, Step{Step: "submit", M: "LogoutAppchain", By: "admin-" + ch, Obj: ch, Args: []string{ch, "r"}})
+			}
+			open = append(open, np)
+			np++
+		case c < 6 && len(open) > 0:
+			j := rng.Intn(len(open))
+			pid := open[j]
+			open = append(open[:j], open[j+1:]...)
+			ballot := "approve"
+			if rng.Intn(4) == 0 {
+				ballot = "reject"
+			}
+			for _, a := range admins[:3] {
+				p.Steps = append(p.Steps, Step{Step: "vote", Pid: pid, By: a, Ballot: ballot})
+			}
+		case c < 9:
+			traffic()
+		default:
+			p.Steps = append(p.Steps, Step{Step: "restart"})
+		}
+	}
+	traffic()
+	return p
+}
+
 var surfCache []lockstep.MethodInfo
 
 func main() {
@@ -1179,7 +1258,9 @@ func main() {
 	} else {
 		rng := rand.New(rand.NewSource(*seed))
 		for i := 0; i < *n; i++ {
-			if *mode == "gov" {
+			if *mode == "lifecycle" {
+				plans = append(plans, genLifecycle(rng, fmt.Sprintf("life-%d-%d", *seed, i)))
+			} else if *mode == "gov" {
 				if i%3 == 2 {
 					plans = append(plans, genGovElectorate(rng, fmt.Sprintf("govel-%d-%d", *seed, i)))
 				} else {
